@@ -18,6 +18,14 @@ PLAN = {
         quick=[dict(test="TestC01Rapid", checks=3000), *shards("TestC01Enum", 4)],
         thorough=[*shards("TestC01Rapid", 12, checks=20000), *shards("TestC01Enum", 4)],
     ),
+    "C03": dict(
+        quick=[dict(test="TestC03Rapid", checks=1200), *shards("TestC03Matrix", 4)],
+        thorough=[*shards("TestC03Rapid", 12, checks=10000), *shards("TestC03Matrix", 4)],
+    ),
+    "C12": dict(
+        quick=[dict(test="TestC12Rapid", checks=3000), *shards("TestC12Names", 4)],
+        thorough=[*shards("TestC12Rapid", 12, checks=40000), *shards("TestC12Names", 4)],
+    ),
     "C04": dict(
         quick=[dict(test="TestC04Rapid", checks=4000), *shards("TestC04Enum", 4)],
         thorough=[*shards("TestC04Rapid", 12, checks=40000), *shards("TestC04Enum", 4)],
@@ -153,3 +161,47 @@ CLAIM = {
         ref="DESIGN.md section 4, C09", technique="fuzzing (rapid generators, exhaustive truncation, native go fuzz) with a crash/hang/result-shape oracle",
         note="a hang is defined by a 10 s bound (30 s on the confirming retry)"),
 }
+
+
+# ---- C03 / C12 ---------------------------------------------------------------------------------
+LEVEL.update({"C03": "exploration", "C12": "exploration"})
+RULE.update({
+    "C03": "case = a client session of 1-6 steps (Connection.Call / Send+receive / Upgrade; plain, more with k=0..6 (sometimes 20-60, thorough "
+           "100-500) continues-replies, oneway, upgrade) against a real Service with a scripted dispatcher, on one of the five transports "
+           "(in-memory pipe via a white-box constructor, filesystem unix socket, abstract unix socket, TCP 127.0.0.1, bridge subprocess); call "
+           "and reply parameters are generated JSON objects as text (integers beyond 2^53, exponents, -0, 0.10, null members, escapes, NUL, "
+           "non-BMP, documents around the 4096-byte buffer, 64 KB, wide, deep; thorough up to 3 MiB), passed either as json.RawMessage or as a "
+           "decoded Go value with json.Number leaves. Plus the full matrix 5 transports x 5 APIs x 7 hard documents. Oracle: what the handler reads "
+           "through Call.GetParameters and what every receive yields must be JSON-equal (own comparer: numbers digit for digit) to what was passed; "
+           "Continues on all replies but the last; errors as typed values. Non-trivial = a document with a number not representable as float64 or "
+           "an escaped/non-ASCII string, or >= 2 continues-replies.",
+    "C12": "case = client sessions as in C03 with error replies in most scripts: error names drawn from ordinary names, every near miss of the "
+           "reserved namespace (prefix/suffix/case/space/sub-namespace variants) x standard and custom last parts, names without an interface part, "
+           "dots in odd places, arbitrary unicode, very long names; parameters none / {} / generated objects; the four built-in helpers with "
+           "arbitrary strings; plain, more and oneway calls; mostly the in-memory transport, 25% the others. Plus a systematic list of ~170 names x 4 "
+           "parameter shapes x plain/more. Oracle: three-way model (must accept -> exact name and JSON-equal parameters in a *varlink.Error or the "
+           "dedicated typed error; must refuse -> error returned to the handler and no frame; empty <Name> -> either, consistently). Non-trivial = "
+           "a name with >= 2 dots or near the reserved namespace, non-empty parameters, or a built-in helper.",
+})
+ASSUME.update({
+    "C03": ["the in-memory transport constructs the Connection through an overlay accessor that mirrors NewConnection after dialling",
+            "the bridge command is this test binary in relay mode (stdin/stdout <-> unix socket)",
+            "JSON equality: objects as member sets, strings code point by code point, numbers by literal digits; duplicate keys are not generated"],
+    "C12": ["error names with an empty <Name> part ('x.', 'org.varlink.service.') are don't-care: sent or refused, but consistently",
+            "absent parameters and JSON null are the same thing on the client side"],
+})
+CLAIM.update({
+    "C03": dict(
+        text="Round-trip property test through the real client and the real service on all five transports: generated JSON objects as call and "
+             "reply parameters (hard numbers, escapes, sizes across the buffer boundary up to MiB), more-sequences of generated length, three client "
+             "APIs; values seen by the handler and returned by receive are compared with an independent JSON equality. The finite transport x API x "
+             "hard-document matrix is enumerated completely.",
+        ref="DESIGN.md section 4, C03", technique="property-based testing (rapid) with a round-trip oracle (value -> wire -> value); bounded-exhaustive transport/API matrix",
+        note="bridge transport = NewBridge with this test binary as relay helper"),
+    "C12": dict(
+        text="Model-based property test of error replies end to end: generated error names (systematic near misses of the reserved namespace, odd "
+             "dot placements, unicode) and parameters sent by the handler through ReplyError and the four built-in helpers, read back through the real "
+             "client; accept/refuse/don't-care model decides what must arrive and what the handler must be told.",
+        ref="DESIGN.md section 4, C12", technique="model-based property testing (rapid) + systematic name list; three-way reference classifier and round-trip oracle",
+        note="shares the end-to-end executor with C03"),
+})
